@@ -339,12 +339,15 @@ def drive_run(ctx, binary, sp, ep, rp, scheds, st):
     return results, [s for s in scheds if s["id"] in done], crashed
 
 
-def gen_schedules(ctx, plans, probes, tag, timeout=1800):
-    """TLC enumerates every schedule of every plan of the list (plans: dicts with tree, deps)."""
+def gen_schedules(ctx, plans, probes, tag, timeout=1800, simulate=None):
+    """TLC enumerates every schedule of every plan of the list (plans: dicts with tree, deps); simulate=N: N random behaviours."""
     tp = ctx.path("plans-%s.ndjson" % tag)
     lib.write_ndjson(tp, [{"tree": p["tree"], "deps": p["deps"]} for p in plans])
-    g = ctx.tlc_must_pass(SPEC, "Gen_FTRun", "Gen_FTRun_probe.cfg" if probes else "Gen_FTRun.cfg", workers=8, timeout=timeout,
-                          deadlock=False, env={"TREES": tp}, tag="gen-schedules-%s" % tag)
+    if not plans:
+        return []
+    kw = {"simulate": simulate, "depth": 100, "seed": ctx.seed, "workers": 1} if simulate else {"workers": 8}
+    g = ctx.tlc_must_pass(SPEC, "Gen_FTRun", "Gen_FTRun_probe.cfg" if probes else "Gen_FTRun.cfg", timeout=timeout,
+                          deadlock=False, env={"TREES": tp}, tag="gen-schedules-%s" % tag, **kw)
     uniq = {}
     for x in g.printed:
         uniq[lib.sha(x)] = x
@@ -412,10 +415,11 @@ def run(ctx):
         return replay(ctx, bins)   # (own findings fragment already loaded above)
     st = {"reports": 0, "rejected": 0, "known": 0, "bad_obs": set()}
     # ---- 1. model checking ----------------------------------------------------------------------
-    ctx.tlc_must_pass(SPEC, "MC_FT", "MC_FT_4.cfg", workers=8, timeout=900, tag="mc-trees<=4-maxdeps")
     if quick:
-        ctx.tlc_must_pass(SPEC, "MC_FT", "MC_FT_3few.cfg", workers=8, timeout=900, tag="mc-trees<=3-graphs<=2edges")
+        # one run: every tree over <= 4 fetches with its most demanding graph + every graph with <= 2 edges for the trees over <= 3
+        ctx.tlc_must_pass(SPEC, "MC_FT", "MC_FT_4mix.cfg", workers=8, timeout=900, tag="mc-trees<=4-maxdeps+graphs<=2edges(n<=3)")
     else:
+        ctx.tlc_must_pass(SPEC, "MC_FT", "MC_FT_4.cfg", workers=8, timeout=900, tag="mc-trees<=4-maxdeps")
         ctx.tlc_must_pass(SPEC, "MC_FT", "MC_FT_3all.cfg", workers=8, timeout=1800, tag="mc-trees<=3-all-graphs")
         ctx.tlc_must_pass(SPEC, "MC_FT", "MC_FT_5.cfg", workers=8, timeout=2400, tag="mc-trees<=5-maxdeps")
     r = ctx.tlc(SPEC, "MC_FT", "MC_FT_bad.cfg", workers=4, timeout=600, count=False, tag="mc-negative-unordered-dependency")
@@ -498,7 +502,7 @@ def run(ctx):
         rng.shuffle(four)
         four = four[:30]
     rng.shuffle(five)
-    five = five[:40]
+    five = five[:40] if not quick else []
     for i, p in enumerate(small + four + five):
         p.update({"grp": "T%04d" % i, "src": "tree", "fail": pick_fail(rng, p), "probe": len(p["deps"]) <= 3})
     if not quick:
@@ -532,7 +536,7 @@ def run(ctx):
                     real.setdefault(lib.sha([o["tree"], o["c"]["deps"]]), {"tree": o["tree"], "deps": o["c"]["deps"]})
     real = [real[k] for k in sorted(real)]
     rng.shuffle(real)
-    real = real[:30 if quick else 400]
+    real = real[:30 if quick else 150]
     for i, p in enumerate(real):
         p.update({"grp": "R%04d" % i, "src": "real", "fail": pick_fail(rng, p), "probe": False})
     plans += real
@@ -546,13 +550,20 @@ def run(ctx):
         p.update({"src": "fed", "probe": (p["nleaves"] <= 4) or not quick})
     plans += fed
     # TLC: every schedule of every plan; one lock probe per behaviour for the probe plans
-    caps = {"tree": (600, 24000), "real": (8, 60), "fed": (40, 10 ** 9)}   # (quick, thorough); real, fed: per plan
-    plain = gen_schedules(ctx, plans, False, "all", timeout=3000)
+    caps = {"tree": (600, 24000), "real": (8, 30), "fed": (40, 10 ** 9)}   # (quick, thorough); real, fed: per plan
+    bfs_plans = [p for p in plans if len(p["deps"]) <= 4 or p["src"] != "tree"]
+    plain = gen_schedules(ctx, bfs_plans, False, "all", timeout=3000)
     pplans = [p for p in plans if p["probe"]]
     probes = gen_schedules(ctx, pplans, True, "probe", timeout=3000)
     chosen = []
+    if five:
+        # up to 113 400 schedules per tree over 5 fetches: random behaviours instead of all
+        for x in gen_schedules(ctx, five, False, "trees5", timeout=3000, simulate=6000):
+            chosen.append((five[x["idx"] - 1], x))
     by_plan = {}
+    pos = {id(p): i + 1 for i, p in enumerate(plans)}
     for x in plain:
+        x["idx"] = pos[id(bfs_plans[x["idx"] - 1])]
         by_plan.setdefault(x["idx"], []).append(x)
     big_tree = []
     for idx in sorted(by_plan):
